@@ -283,6 +283,9 @@ UseMatcher(st, mk) == [st EXCEPT !.current = mk]
 SetDefault(st, mk) == [st EXCEPT !.current = mk, !.default = mk]
 \* register_type(Colour=<the second converter>) in a step module (needs a parse / cfparse current matcher)
 ReType(st) == [st EXCEPT !.tver = 2]
+\* StepRegistry.clear(): forgets every definition of all four step types (each type keeps a list of its own);
+\* the matcher state and the registered types belong to the factory and stay
+Clear(st)  == [st EXCEPT !.steps = [t \in Types |-> <<>>]]
 \* load_step_modules after each step module: use_default_step_matcher()
 ModuleEnd(st)      == [st EXCEPT !.current = st.default]
 \* add_step_definition(type, Render(p, current), func): res in {ok, ignored, ambiguous}
